@@ -13,6 +13,7 @@ import Enc.Spec.Json.DynNumber
 import Enc.Model.Json.Own
 import Enc.Spec.Json.Cyclic
 import Enc.Driver.JsonFields
+import Enc.Driver.JsonAny
 import Enc.Spec.Json.RoundTrip
 import Enc.Model.Json.MapOrder
 /-! line-protocol handlers, area `json` (syntax layer). -/
@@ -185,6 +186,25 @@ def handle (op : String) (args : List String) : Option (String × String × Stri
         | [k, v] => (fromHex k).bind fun kb => (fromHex v).map fun vb => (kb, vb)
         | _ => none)).map some
     pure (toHex (Model.Json.MapOrder.encodeMapStringString (html == "1") true m) ++ ";perm", "-", "")
+  -- json.decany <flags 0..15> <hex document>: the value stored into `var x any` (see Driver/JsonAny.lean)
+  | "json.decany", [m, h] => do
+    let m ← m.toNat?
+    let b ← fromHex h
+    pure (Driver.JsonAny.prop (Driver.JsonAny.run m b))
+  | "json.decany", [m, h, prior] => do
+    let m ← m.toNat?
+    let b ← fromHex h
+    let p ← Driver.JsonAny.priorOf prior
+    pure (Driver.JsonAny.prop (Driver.JsonAny.runInto m b p))
+  | "json.decanycls", [m, h] => do
+    let m ← m.toNat?
+    let b ← fromHex h
+    pure (Driver.JsonAny.cls (Driver.JsonAny.run m b))
+  | "json.decanycls", [m, h, prior] => do
+    let m ← m.toNat?
+    let b ← fromHex h
+    let p ← Driver.JsonAny.priorOf prior
+    pure (Driver.JsonAny.cls (Driver.JsonAny.runInto m b p))
   | "json.fields", [d] => Driver.JsonFields.run d
   | "json.fieldsnil", [d] => Driver.JsonFields.runNil d
   | "json.fieldsvis", [d] => Driver.JsonFields.runVisible d
